@@ -50,7 +50,7 @@ class Out:
         if self.auto_imports:
             import re as _re
             body = "\n".join(ls)
-            self.imports = [imp for pat, imp in (("\\bd\\.", '"m/d"'), ("\\bdd\\.", 'dd "m/d"'), ("\\bq\\.", '"m/q"'))
+            self.imports = [imp for pat, imp in (("\\bd\\.", '"m/d"'), ("\\bdd\\.", 'dd "m/d"'), ("\\bq\\.", '"m/q"'), ("\\bo\\.T\\b", '"m/o"'))
                             if _re.search(pat, body)]
             self.auto_imports = False
         if self.imports:
@@ -64,19 +64,20 @@ class Out:
 
 
 def d_package(ann, extra_decls=()):
-    ls = ["package d", ""]
-    ls.append("// T is the annotated type of the scenario.")
+    # T is the middle spec of a `type ( ... )` group: before it a documented plain type, after it an undocumented one
+    ls = ["package d", "", "type (", "\t// P0 is a plain type.", "\tP0 struct{ X int }"]
+    ls.append("\t// T is the annotated type of the scenario.")
     if ann.get("noise"):
-        ls.append("// It mentions @immutable and @constructor NewT mid-sentence, which is inert.")
-        ls.append("// @packageonly u, m/u, d")
+        ls.append("\t// It mentions @immutable and @constructor NewT mid-sentence, which is inert.")
+        ls.append("\t// @packageonly u, m/u, d")
     if ann.get("imm"):
-        ls.append("// @immutable")
+        ls.append("\t// @immutable")
     if ann.get("ctors"):
-        ls.append("// @constructor " + ann.get("ctor_spelling", ", ".join(ann["ctors"])))
-    ls += ["type T struct {", "\tX  int", "\tXs []int", "\tMp map[string]int"]
+        ls.append("\t// @constructor " + ann.get("ctor_spelling", ", ".join(ann["ctors"])))
+    ls += ["\tT struct {", "\t\tX  int", "\t\tXs []int", "\t\tMp map[string]int"]
     if ann.get("mut"):
-        ls.append("\t// @mutable")
-    ls += ["\tM int", "}", ""]
+        ls.append("\t\t// @mutable")
+    ls += ["\t\tM int", "\t}", "\tTG struct{ X int }", ")", ""]
     if ann.get("imm"):
         ls.append("// @immutable")
     ls += ["type C int", "", "// T2 is a second annotated type with its own constructor."]
@@ -130,6 +131,7 @@ IMM_STMT = {
     "indexMp": "%(x)s.Mp[\"k\"] = %(n)d",
     "readX": "_ = %(x)s.X + %(n)d",
     "onU": "u%(n)d.X = %(n)d",
+    "onTG": "g%(n)d.X = %(n)d",
     "onT2": "q%(n)d.X = %(n)d",
     "onHidden": "%(q)sHidden().X = %(n)d",
     "local": "l%(n)d = %(n)d",
@@ -164,6 +166,8 @@ def imm_container(c, n, pkg, qual, handles):
         params = "u%d *%sU" % (n, qual)
     if c["stmt"] == "onT2":
         params = "q%d *%sT2" % (n, qual)
+    if c["stmt"] == "onTG":
+        params = "g%d *%sTG" % (n, qual)
     if c["stmt"] == "onHidden":
         params = ""
     if c["stmt"] in ("recvInc", "recvDec", "recvAssign") or c["via"] == "r":
@@ -179,6 +183,8 @@ def imm_container(c, n, pkg, qual, handles):
             handles.append("var u%d *%sU" % (n, qual))
         elif c["stmt"] == "onT2":
             handles.append("var q%d *%sT2" % (n, qual))
+        elif c["stmt"] == "onTG":
+            handles.append("var g%d *%sTG" % (n, qual))
         elif c["stmt"] in ("starPlain", "starPlainInc"):
             pre = ["var r *int"] + pre
         elif c["stmt"] == "onHidden":
@@ -266,6 +272,8 @@ def build_generic(sc, sid, container_fn, d_extra=()):
     pkgs = [{"path": "m/d", "name": "d", "files": [{"name": "d/d.go", "src": d_package(sc["ann"], d_extra)}]}]
     if uses_alias3:
         pkgs.append({"path": "m/q", "name": "q", "files": [{"name": "q/q.go", "src": 'package q\n\nimport "m/d"\n\ntype TA = d.T\n'}]})
+    if any(c.get("stmt") == "litOT" for conts in sc["files"] for c in conts):
+        pkgs.append({"path": "m/o", "name": "o", "files": [{"name": "o/o.go", "src": "package o\n\n// T is not annotated; it shares its name with d.T.\ntype T struct{ X int }\n"}]})
     gofiles = []
     for out in files:
         src = out.src()
@@ -300,6 +308,8 @@ CTOR_STMT = {
     "varPtr": ("var v%(n)d *%(t)s", "var g%(n)d *%(t)s"),
     "varBlank": ("var _ %(t)s", None),
     "onU": ("_ = %(q)sU{X: %(n)d}", None),
+    "litTG": ("_ = %(q)sTG{X: %(n)d}", None),
+    "litOT": ("_ = o.T{X: %(n)d}", None),
     "lit2": ("_ = %(q)sT2{X: %(n)d}", "var g%(n)d = %(q)sT2{X: %(n)d}"),
     "nestNewInLit2": ("_ = %(q)sT2{X: %(n)d, In: new(%(q)sT)}", None),
     "new2": ("v%(n)d := new(%(q)sT2)", "var g%(n)d = new(%(q)sT2)"),
